@@ -784,64 +784,84 @@ func TestVerif_C14_Accum(t *testing.T) {
 			R.Internal("harness: the two transactions differ in length")
 			return
 		}
-		meta := c14aBuild(64, c14Shape{FrameSize: 1 << 20, FanOut: 2, Sum: "crc64"})
+		metaSingle := c14aBuild(64, c14Shape{FrameSize: 1 << 20, FanOut: 2, Sum: "crc64"})
+		metaMulti := c14aBuild(600, c14Shape{FrameSize: 200, FanOut: 2, Sum: "crc64"})
 		block := &ipldbindcode.Block{Kind: int(iplddecoders.KindBlock), Slot: 1234, Meta: ipldbindcode.SlotMeta{Parent_slot: 1233, Blocktime: 1_600_000_000}}
 		didx := int64(0)
-		for n := 2; n <= 8; n++ {
-			for fan := 1; fan <= 3; fan++ {
-				shape := c14Shape{Len: len(txa), FrameSize: (len(txa) + n - 1) / n, FanOut: fan, Sum: "crc64"}
-				cha, chb := c14Build(shape, txa), c14Build(shape, txb)
-				for _, f := range c14Faults(shape) {
-					mine := vkit.Mine(didx)
-					didx++
-					if !mine {
-						continue
-					}
-					first, store := c14Apply(cha, chb, f)
-					var objs []ObjectWithMetadata
-					for p := 1; p < cha.N; p++ {
-						if raw, ok := store[cha.Cids[p]]; ok {
-							objs = append(objs, ObjectWithMetadata{Cid: cha.Cids[p], Offset: uint64(p), SectionLength: uint64(len(raw) + 38), ObjectData: raw})
+		// metaMode: 0 = metadata in one frame; 1 / 2 = metadata in linked frames too, stored before / after the
+		// transaction's frames (both groups precede the Transaction object)
+		for metaMode := 0; metaMode <= 2; metaMode++ {
+			meta := metaSingle
+			if metaMode > 0 {
+				meta = metaMulti
+			}
+			var metaFrames []ObjectWithMetadata
+			for p := 1; p < meta.a.N; p++ {
+				raw := c14EncodeFrame(&meta.a.Typed[p])
+				metaFrames = append(metaFrames, ObjectWithMetadata{Cid: meta.a.Cids[p], Offset: uint64(500 + p), SectionLength: uint64(len(raw) + 38), ObjectData: raw})
+			}
+			for n := 2; n <= 8; n++ {
+				for fan := 1; fan <= 3; fan++ {
+					shape := c14Shape{Len: len(txa), FrameSize: (len(txa) + n - 1) / n, FanOut: fan, Sum: "crc64"}
+					cha, chb := c14Build(shape, txa), c14Build(shape, txb)
+					for _, f := range c14Faults(shape) {
+						mine := vkit.Mine(didx)
+						didx++
+						if !mine {
+							continue
 						}
-					}
-					if f.Kind == "swap-node" {
-						for p := 1; p < chb.N; p++ {
-							raw := c14EncodeFrame(&chb.Typed[p])
-							objs = append(objs, ObjectWithMetadata{Cid: chb.Cids[p], Offset: uint64(100 + p), SectionLength: uint64(len(raw) + 38), ObjectData: raw})
+						first, store := c14Apply(cha, chb, f)
+						var objs []ObjectWithMetadata
+						if metaMode == 1 {
+							objs = append(objs, metaFrames...)
 						}
-					}
-					objs = append(objs, c14aTxObject(first, meta.a.Typed[0], 0))
-					rp := map[string]interface{}{"variant": "accum", "tx_data_frames": cha.N, "fan_out": fan, "fault": f}
-					R.Case(true, "")
-					func() {
-						defer func() {
-							if r := recover(); r != nil {
-								R.Outcome("tx-data:" + f.Kind + ":panic")
-								R.Violation("C14|panic|"+f.Kind+"|ObjectsToTransactionsAndMetadata(transaction data)|"+c14PanicSite(debug.Stack()), fmt.Sprintf("transaction data in %d frames, fault %+v: panic %v", cha.N, f, r), rp)
+						for p := 1; p < cha.N; p++ {
+							if raw, ok := store[cha.Cids[p]]; ok {
+								objs = append(objs, ObjectWithMetadata{Cid: cha.Cids[p], Offset: uint64(p), SectionLength: uint64(len(raw) + 38), ObjectData: raw})
+							}
+						}
+						if f.Kind == "swap-node" {
+							for p := 1; p < chb.N; p++ {
+								raw := c14EncodeFrame(&chb.Typed[p])
+								objs = append(objs, ObjectWithMetadata{Cid: chb.Cids[p], Offset: uint64(100 + p), SectionLength: uint64(len(raw) + 38), ObjectData: raw})
+							}
+						}
+						if metaMode == 2 {
+							objs = append(objs, metaFrames...)
+						}
+						objs = append(objs, c14aTxObject(first, meta.a.Typed[0], 0))
+						rp := map[string]interface{}{"variant": "accum", "tx_data_frames": cha.N, "fan_out": fan, "fault": f, "metadata_frames": meta.a.N, "metadata_frames_stored": []string{"-", "before the transaction's frames", "after the transaction's frames"}[metaMode]}
+						R.Case(true, "")
+						func() {
+							defer func() {
+								if r := recover(); r != nil {
+									R.Outcome("tx-data:" + f.Kind + ":panic")
+									R.Violation("C14|panic|"+f.Kind+"|ObjectsToTransactionsAndMetadata(transaction data)|"+c14PanicSite(debug.Stack()), fmt.Sprintf("transaction data in %d frames, fault %+v: panic %v", cha.N, f, r), rp)
+								}
+							}()
+							txs, err := ObjectsToTransactionsAndMetadata(block, objs)
+							switch {
+							case err != nil && f.Kind == "none":
+								R.Outcome("tx-data:none:error")
+								R.Violation("C14|fault-free-error|ObjectsToTransactionsAndMetadata(transaction data)", fmt.Sprintf("fault-free transaction of %d bytes stored in %d linked frames (fan-out %d; metadata in %d frame(s)), all frames among the preceding objects, is rejected: %v", len(txa), cha.N, fan, meta.a.N, err), rp)
+							case err != nil:
+								R.Outcome("tx-data:" + f.Kind + ":error")
+							default:
+								defer PutTransactionWithSlotSlice(txs)
+								ok := len(txs) == 1
+								d := fmt.Sprintf("%d transactions returned", len(txs))
+								if ok {
+									ok, _, d = c14aCheckTx(txs[0], txa, meta.plainA)
+								}
+								if ok {
+									R.Outcome("tx-data:" + f.Kind + ":original")
+								} else {
+									R.Outcome("tx-data:" + f.Kind + ":wrong")
+									R.Violation("C14|wrong-bytes|"+f.Kind+"|ObjectsToTransactionsAndMetadata(transaction data)", fmt.Sprintf("transaction data in %d frames, fault %+v: no error but %s", cha.N, f, d), rp)
+								}
 							}
 						}()
-						txs, err := ObjectsToTransactionsAndMetadata(block, objs)
-						switch {
-						case err != nil && f.Kind == "none":
-							R.Outcome("tx-data:none:error")
-							R.Violation("C14|fault-free-error|ObjectsToTransactionsAndMetadata(transaction data)", fmt.Sprintf("fault-free transaction of %d bytes stored in %d linked frames (fan-out %d), all frames among the preceding objects, is rejected: %v", len(txa), cha.N, fan, err), rp)
-						case err != nil:
-							R.Outcome("tx-data:" + f.Kind + ":error")
-						default:
-							defer PutTransactionWithSlotSlice(txs)
-							ok := len(txs) == 1
-							d := fmt.Sprintf("%d transactions returned", len(txs))
-							if ok {
-								ok, _, d = c14aCheckTx(txs[0], txa, meta.plainA)
-							}
-							if ok {
-								R.Outcome("tx-data:" + f.Kind + ":original")
-							} else {
-								R.Outcome("tx-data:" + f.Kind + ":wrong")
-								R.Violation("C14|wrong-bytes|"+f.Kind+"|ObjectsToTransactionsAndMetadata(transaction data)", fmt.Sprintf("transaction data in %d frames, fault %+v: no error but %s", cha.N, f, d), rp)
-							}
-						}
-					}()
+					}
 				}
 			}
 		}
